@@ -4687,6 +4687,355 @@ def k_declaration_arms(E, tier):
     return rec
 
 
+def k_map_literal(E, tier):
+    """C13: a map literal (the Map arm of sass::Value::do_evaluate) is built by inserting every evaluated
+    (key, value) pair, in source order, with OrderMap::insert — the operation whose `==`-merging E1 checks —
+    and the literal is an error (`Duplicate key.`) exactly when an insert reports that an `==` key was
+    already there; evaluation errors of keys and values are returned."""
+    sv = E.load_enum("sass/value.rs", "Value", "sass::value::Value")
+    f = E.find(name_re=r"^sass::value::<impl at .*>::do_evaluate$", contains=["Duplicate key"])
+    rec = Rec("sass::Value::do_evaluate (Map arm)", f, E)
+    ctx = E.ctx()
+    me = sym.Opaque("sass::value::Value", "literal", ctx)
+    ctx.assumptions.append("(= %s %s)" % (me.discriminant().term, bvlit(sv.index("Map"), 64)))
+    themap = sym.Opaque("css::ValueMap", "items", ctx)
+    srcs = []
+
+    def full(ex, st, x):
+        while isinstance(x, sym.Ref):
+            x = ex.deref(st, x)
+        return x
+
+    def m_new(ex, st, c, a, d):
+        st.events.append(sym.Event("map_new", a, themap, len(st.pc)))
+        return themap
+
+    def m_next(ex, st, c, a, d):
+        n = sum(1 for e in st.events if e.callee == "pair-some")
+        if n >= 3:
+            st.events.append(sym.Event("cut", [], None, len(st.pc)))
+            return sym.Agg(d, "None", {}, 0)
+        while len(srcs) <= n:
+            k = len(srcs)
+            srcs.append((sym.Opaque("sass::value::Value", "key-expr%d" % k, ctx), sym.Opaque("sass::value::Value", "value-expr%d" % k, ctx)))
+        some, none = st.fork(), st.fork()
+        some.cells["S%d" % n] = sym.Agg("pair", None, {"0": srcs[n][0], "1": srcs[n][1]})
+        some.events.append(sym.Event("pair-some", [], None, len(st.pc)))
+        none.events.append(sym.Event("pair-none", [], None, len(st.pc)))
+        return [(some, sym.Agg(d, "Some", {"0": sym.Ref("cell", "S%d" % n)}, 1)), (none, sym.Agg(d, "None", {}, 0))]
+
+    def m_eval(ex, st, c, a, d):
+        # the recursive call on a key or value expression
+        src = full(ex, st, a[0])
+        ok, err = st.fork(), st.fork()
+        v = sym.Opaque("css::value::Value", "evaluated(%s)" % getattr(src, "name", "?"), ctx)
+        e = sym.Event("evaluate", a, v, len(st.pc))
+        e.rargs = [src]
+        ok.events.append(e)
+        err.events.append(sym.Event("evaluate-failed", a, None, len(st.pc)))
+        return [(ok, sym.Agg(d, "Ok", {"0": v}, 0)), (err, sym.Agg(d, "Err", {"0": sym.Opaque("Error", "eval-error", ctx)}, 1))]
+
+    def m_insert(ex, st, c, a, d):
+        some, none = st.fork(), st.fork()
+        for s2, r in ((some, "some"), (none, "none")):
+            e = sym.Event("insert", a, r, len(st.pc))
+            e.rargs = [full(ex, st, x) for x in a]
+            s2.events.append(e)
+        return [(some, sym.Agg(d, "Some", {"0": sym.Opaque("css::value::Value", "previous", ctx)}, 1)), (none, sym.Agg(d, "None", {}, 0))]
+
+    def m_is_some(ex, st, c, a, d):
+        x = full(ex, st, a[0])
+        if isinstance(x, sym.Agg):
+            return sym.mk_bool("true" if x.variant == "Some" else "false")
+        return sym.mk_bool("(= %s %s)" % (ex.discriminant(x).term, bvlit(1, 64)))
+
+    def m_other_build(name):
+        def m(ex, st, c, a, d):
+            o = ctx.fresh_value(d or "()", "ret." + name)
+            st.events.append(sym.Event(name, a, o, len(st.pc)))
+            return o
+        return m
+
+    models = [
+        (r"^OrderMap::<css::value::Value, css::value::Value>::new$", m_new),
+        (r"^<std::slice::Iter<'_, \(sass::value::Value, sass::value::Value\)> as Iterator>::next$", m_next),
+        (r"^<&Vec<\(sass::value::Value, sass::value::Value\)> as IntoIterator>::into_iter$", lambda ex, st, c, a, d: sym.Opaque("iter", "pairs", ctx)),
+        (r"^sass::value::Value::do_evaluate$", m_eval), (r"^OrderMap::<css::value::Value, css::value::Value>::insert$", m_insert),
+        (r"^Option::<css::value::Value>::is_some$", m_is_some), (r"^<ScopeRef as Clone>::clone$", lambda ex, st, c, a, d: full(ex, st, a[0])),
+        (r"as Iterator>::collect::<.*OrderMap", m_other_build("collect-into-map")), (r"as FromIterator<.*>>::from_iter", m_other_build("collect-into-map")),
+    ] + BASE_MODELS
+    ex = sym.Executor(ctx, models=models, unroll=7, feasibility=E.feasibility(ctx), max_paths=4000)
+    paths = [p for p in ex.run(f, [sym.Ref("val", me), sym.Opaque("ScopeRef", "scope", ctx), ctx.fresh_scalar("bool", "arithmetic")]) if p.status == "return"]
+    rec.paths = len(paths)
+    seen = set()
+    bad = []
+    unknown = 0
+    for i, p in enumerate(paths):
+        if any(e.callee == "cut" for e in p.events):
+            continue
+        ret = p.ret
+        if not (isinstance(ret, sym.Agg) and ret.variant in ("Ok", "Err")):
+            unknown += 1
+            continue
+        if any(e.callee == "collect-into-map" for e in p.events):
+            bad.append("path %d: the map is collected from an iterator (OrderMap's FromIterator does not merge `==` keys) instead of being built with insert" % i)
+            continue
+        n = sum(1 for e in p.events if e.callee == "pair-some")
+        ins = [e for e in p.events if e.callee == "insert"]
+        evs = [e for e in p.events if e.callee == "evaluate"]
+        failed = any(e.callee == "evaluate-failed" for e in p.events)
+        if ret.variant == "Ok":
+            out = ret.fields["0"]
+            ok = (not failed and len(ins) == n and all(x.result == "none" for x in ins) and isinstance(out, sym.Agg) and out.variant == "Map" and out.fields["0"] is themap
+                  and all(ins[k].rargs[0] is themap and isinstance(ins[k].rargs[1], sym.Opaque) and ins[k].rargs[1].name == "evaluated(key-expr%d)" % k
+                          and ins[k].rargs[2].name == "evaluated(value-expr%d)" % k for k in range(n)))
+            if not ok:
+                bad.append("path %d: Ok only when every pair was inserted, in order, and no insert met an `==` key" % i)
+            seen.add("ok-%d" % n)
+        else:
+            dup = bool(ins) and ins[-1].result == "some"
+            if not (failed or dup):
+                bad.append("path %d: an error without a failed evaluation or a duplicate key" % i)
+            if dup:
+                seen.add("duplicate")
+            if failed:
+                seen.add("eval-error")
+    rec.add("map literal: every evaluated pair is inserted in order; the literal is an error exactly for a failed evaluation or an insert that met an `==` key (%d paths)" % len(paths),
+            {"verdict": "holds" if not bad and seen else ("violated" if bad else "inconclusive"), "per_solver": {"structural": "; ".join(bad[:2]) or "event identity"}, "time_s": 0})
+    need = {"ok-0", "ok-1", "ok-2", "duplicate", "eval-error"}
+    if not bad and not need <= seen:
+        rec.add("all outcome kinds explored (%s missing; %d paths with unknown result)" % (sorted(need - seen), unknown), {"verdict": "inconclusive", "per_solver": {}, "time_s": 0})
+    return rec
+
+
+def k_store_restore_locals(E, tier):
+    """C16 (@each variables do not leak): Scope::store_local_values snapshots, for each name, what *this
+    scope's own* variable table holds (None when it holds nothing — never a value found in an enclosing
+    scope), and restore_local_values puts exactly that back: a saved value is re-inserted, a saved None
+    removes the variable."""
+    f = E.find(name_re=r"^variablescope::<impl at .*>::store_local_values$")
+    rec = Rec("Scope::store_local_values / restore_local_values", f, E)
+    ctx = E.ctx()
+    me = sym.Opaque("Scope", "self", ctx)
+
+    def full(ex, st, x):
+        while isinstance(x, sym.Ref):
+            x = ex.deref(st, x)
+        return x
+
+    def m_lock(ex, st, c, a, d):
+        tbl = full(ex, st, a[0])
+        return sym.Agg(d, "Ok", {"0": sym.Agg("MutexGuard", "GUARD", {"0": tbl})}, 0)
+
+    def m_unwrap(ex, st, c, a, d):
+        x = a[0]
+        return x.fields["0"] if isinstance(x, sym.Agg) and x.variant == "Ok" else None
+
+    def m_names_map(ex, st, c, a, d):
+        clos = [x for x in a if isinstance(x, sym.Agg)]
+        e = sym.Event("names-map", a, None, len(st.pc))
+        e.captured = {k: full(ex, st, v) for c_ in clos for k, v in c_.fields.items()}
+        st.events.append(e)
+        return sym.Opaque("iter", "mapped-names", ctx)
+
+    models = [(r"^std::sync::Mutex::<BTreeMap<Name, css::value::Value>>::lock$", m_lock), (r"^std::result::Result::<std::sync::MutexGuard<.*>::unwrap$", m_unwrap),
+              (r"^core::slice::<impl \[Name\]>::iter$", lambda ex, st, c, a, d: sym.Opaque("iter", "names", ctx)),
+              (r"^<std::slice::Iter<'_, Name> as Iterator>::map::<", m_names_map)] + BASE_MODELS
+    ex = sym.Executor(ctx, models=models, feasibility=E.feasibility(ctx))
+    paths = [p for p in ex.run(f, [sym.Ref("val", me), sym.Opaque("&[Name]", "names", ctx)]) if p.status == "return"]
+    rec.paths = len(paths)
+    # which closure is mapped over the names, and what does it capture
+    mp = [e for p in paths for e in p.events if e.callee == "names-map"]
+    own_table = me.children.get("variables") or me.children.get("1")
+    closure_fn = [g for g in E.funcs if g.name == f.name + "::{closure#0}"]
+    if len(paths) != 1 or len(mp) != 1 or len(closure_fn) != 1:
+        rec.add("store: one closure mapped over the names (shape not recognised)", {"verdict": "inconclusive", "per_solver": {}, "time_s": 0})
+    else:
+        cap = mp[0].captured.get("vars") or mp[0].captured.get("0")
+        guard_of_own = isinstance(cap, sym.Agg) and cap.variant == "GUARD" and isinstance(cap.fields["0"], sym.Opaque) and cap.fields["0"].name.startswith("self.")
+        # the closure body
+        ctx2 = E.ctx()
+        nm = sym.Opaque("Name", "name", ctx2)
+        guard = sym.Agg("MutexGuard", "GUARD", {"0": sym.Opaque("BTreeMap", "own-table", ctx2)})
+        env2 = sym.Agg("closure", None, {"0": sym.Ref("val", guard), "vars": sym.Ref("val", guard)})
+
+        def ev2(name):
+            def m(ex_, st, c, a, d):
+                o = ctx2.fresh_value(d or "()", "ret." + name)
+                e = sym.Event(name, a, o, len(st.pc))
+                e.rargs = [ex_.resolve_ref(st, x) for x in a]
+                st.events.append(e)
+                return o
+            return m
+
+        models2 = [(r"^<std::sync::MutexGuard<.*> as Deref>::deref$", lambda ex_, st, c, a, d: sym.Ref("val", ex_.resolve_ref(st, a[0]).fields["0"]) if isinstance(ex_.resolve_ref(st, a[0]), sym.Agg) else None),
+                   (r"^BTreeMap::<Name, css::value::Value>::get::<Name>$", ev2("table-get")), (r"^Option::<&css::value::Value>::cloned$", lambda ex_, st, c, a, d: a[0]),
+                   (r"^<Name as Clone>::clone$", lambda ex_, st, c, a, d: ex_.resolve_ref(st, a[0])),
+                   (r"Scope::get_local_or_none$|Scope::get_or_none$|Scope::get$", ev2("scope-chain-lookup"))] + BASE_MODELS
+        ex2 = sym.Executor(ctx2, models=models2, feasibility=E.feasibility(ctx2))
+        try:
+            ps = [p for p in ex2.run(closure_fn[0], [sym.Ref("val", env2), sym.Ref("val", nm)]) if p.status == "return"]
+        except sym.Unsupported:
+            ps = []
+        chain = [e for p in ps for e in p.events if e.callee == "scope-chain-lookup"]
+        gets = [e for p in ps for e in p.events if e.callee == "table-get"]
+        if chain:
+            rec.add("store: the snapshot of a name is what this scope's own table holds (the closure asks the scope chain, which also finds variables of enclosing scopes)",
+                    {"verdict": "violated", "per_solver": {"structural": "call to %s" % chain[0].callee}, "time_s": 0})
+        elif len(ps) == 1 and len(gets) == 1 and guard_of_own:
+            r = ps[0].ret
+            ok = (gets[0].rargs[0] is guard.fields["0"] and gets[0].rargs[1] is nm and isinstance(r, sym.Agg) and r.fields.get("0") is nm and r.fields.get("1") is gets[0].result)
+            rec.add("store: the snapshot of a name is (name, own table's entry for that name), the table being this scope's own variables",
+                    {"verdict": "holds" if ok else "violated", "per_solver": {"structural": "event identity"}, "time_s": 0})
+        else:
+            rec.add("store: the closure looks the name up in the captured table (shape not recognised)", {"verdict": "inconclusive", "per_solver": {}, "time_s": 0})
+    # restore
+    g = E.find(name_re=r"^variablescope::<impl at .*>::restore_local_values$")
+    ctx3 = E.ctx()
+    me3 = sym.Opaque("Scope", "self", ctx3)
+    saved_name = sym.Opaque("Name", "saved-name", ctx3)
+    saved_val = sym.Opaque("std::option::Option<css::value::Value>", "saved-value", ctx3)
+
+    def m_next3(ex_, st, c, a, d):
+        n = sum(1 for e in st.events if e.callee == "saved-some")
+        if n >= 1:
+            return sym.Agg(d, "None", {}, 0)
+        some, none = st.fork(), st.fork()
+        some.events.append(sym.Event("saved-some", [], None, len(st.pc)))
+        return [(some, sym.Agg(d, "Some", {"0": sym.Agg("pair", None, {"0": saved_name, "1": saved_val})}, 1)), (none, sym.Agg(d, "None", {}, 0))]
+
+    def ev3(name):
+        def m(ex_, st, c, a, d):
+            o = ctx3.fresh_value(d or "()", "ret." + name)
+            e = sym.Event(name, a, o, len(st.pc))
+            e.rargs = [ex_.resolve_ref(st, x) for x in a]
+            st.events.append(e)
+            return o
+        return m
+
+    def m_lock3(ex_, st, c, a, d):
+        return sym.Agg(d, "Ok", {"0": sym.Agg("MutexGuard", "GUARD", {"0": ex_.resolve_ref(st, a[0])})}, 0)
+
+    def m_derefmut(ex_, st, c, a, d):
+        gd = ex_.resolve_ref(st, a[0])
+        return sym.Ref("val", gd.fields["0"]) if isinstance(gd, sym.Agg) and gd.variant == "GUARD" else None
+
+    models3 = [(r"^std::sync::Mutex::<BTreeMap<Name, css::value::Value>>::lock$", m_lock3), (r"^std::result::Result::<std::sync::MutexGuard<.*>::unwrap$", m_unwrap),
+               (r"^<std::sync::MutexGuard<.*> as Deref(Mut)?>::deref(_mut)?$", m_derefmut),
+               (r"^<Vec<\(Name, Option<css::value::Value>\)> as IntoIterator>::into_iter$", lambda ex_, st, c, a, d: sym.Opaque("iter", "saved", ctx3)),
+               (r"^<std::vec::IntoIter<\(Name, Option<css::value::Value>\)> as Iterator>::next$", m_next3),
+               (r"^BTreeMap::<Name, css::value::Value>::insert$", ev3("table-insert")), (r"^BTreeMap::<Name, css::value::Value>::remove::<Name>$", ev3("table-remove"))] + BASE_MODELS
+    ex3 = sym.Executor(ctx3, models=models3, unroll=4, feasibility=E.feasibility(ctx3))
+    try:
+        p3 = [p for p in ex3.run(g, [sym.Ref("val", me3), sym.Opaque("Vec", "saved", ctx3)]) if p.status == "return"]
+    except sym.Unsupported as e_:
+        p3 = []
+        rec.notes.append("restore: %s" % str(e_)[:120])
+    rec.paths += len(p3)
+    D = ex3.discriminant(saved_val).term
+    kinds = set()
+    bad = []
+    for i, p in enumerate(p3):
+        if not any(e.callee == "saved-some" for e in p.events):
+            continue
+        ins = [e for e in p.events if e.callee == "table-insert"]
+        rem = [e for e in p.events if e.callee == "table-remove"]
+        own = lambda t: isinstance(t, sym.Opaque) and t.name.startswith("self.")
+        if ins and not rem:
+            r = E.decide(ctx3, p.pc + ["(not (= %s %s))" % (D, bvlit(1, 64))])
+            if not (r["verdict"] == "holds" and own(ins[0].rargs[0]) and ins[0].rargs[1] is saved_name and ins[0].rargs[2] is saved_val.children.get("Some.0")):
+                bad.append("path %d: a saved value is re-inserted under its name in this scope's table" % i)
+            kinds.add("insert")
+        elif rem and not ins:
+            r = E.decide(ctx3, p.pc + ["(not (= %s %s))" % (D, bvlit(0, 64))])
+            if not (r["verdict"] == "holds" and own(rem[0].rargs[0]) and rem[0].rargs[1] is saved_name):
+                bad.append("path %d: a saved None removes the name from this scope's table" % i)
+            kinds.add("remove")
+        else:
+            bad.append("path %d: exactly one of insert / remove per saved entry" % i)
+    if kinds == {"insert", "remove"} or bad:
+        rec.add("restore: Some(v) is re-inserted, None removes the variable, both in this scope's own table",
+                {"verdict": "holds" if not bad else "violated", "per_solver": {"z3+cvc5": "pc implies the saved entry's variant", "detail": "; ".join(bad[:2])}, "time_s": 0})
+    else:
+        rec.add("restore: both kinds of saved entry explored (%s; shape not recognised)" % sorted(kinds), {"verdict": "inconclusive", "per_solver": {}, "time_s": 0})
+    return rec
+
+
+def k_selector_ctx(E, tier):
+    """C20 (@at-root and `&`): SelectorCtx keeps, besides the current selectors, the selectors `&` refers to.
+    `&` (get_backref) is the current selector set unless that is the root, in which case it is the
+    remembered one; `@at-root <selector>` resolves `&` in its selector against exactly that set and
+    remembers it for nested blocks; plain nesting combines with the current selectors and resolves `&`
+    against the same set."""
+    f = E.find(name_re=r"^context::<impl at .*>::at_root$|selectors::context::<impl at .*>::at_root$")
+    rec = Rec("SelectorCtx::at_root / nest / get_backref", f, E)
+    for fn in ("at_root", "nest"):
+        g = E.find(name_re=r"context::<impl at .*>::%s$" % fn)
+        ctx = E.ctx()
+        me = sym.Opaque("SelectorCtx", "self", ctx)
+        sel = sym.Opaque("SelectorSet", "selectors", ctx)
+        isroot = ctx.fresh_scalar("bool", "current_is_root")
+
+        def full(ex, st, x):
+            while isinstance(x, sym.Ref):
+                x = ex.deref(st, x)
+            return x
+
+        def m_is_root(ex, st, c, a, d, isroot=isroot):
+            st.events.append(sym.Event("is_root", [full(ex, st, a[0])], None, len(st.pc)))
+            return isroot
+
+        def ev(name):
+            def m(ex, st, c, a, d, ctx=ctx):
+                o = ctx.fresh_value(d or "()", "ret." + name)
+                e = sym.Event(name, a, o, len(st.pc))
+                e.rargs = [full(ex, st, x) for x in a]
+                st.events.append(e)
+                return o
+            return m
+
+        models = [(r"CssSelectorSet::is_root$", m_is_root), (r"SelectorSet::resolve_ref$", ev("resolve_ref")), (r"CssSelectorSet::nest$", ev("nest")),
+                  (r"^<CssSelectorSet as Clone>::clone$", lambda ex, st, c, a, d: sym.Agg("CssSelectorSet", "CLONE", {"0": full(ex, st, a[0])}))] + BASE_MODELS
+        ex = sym.Executor(ctx, models=models, inline=[r"SelectorCtx::get_backref$"], feasibility=E.feasibility(ctx))
+        paths = [p for p in ex.run(g, [sym.Ref("val", me), sel]) if p.status == "return"]
+        rec.paths += len(paths)
+        cur = me.children.get("0") or me.children.get("s")
+        remembered = me.children.get("1") or me.children.get("backref")
+        kinds = set()
+        for i, p in enumerate(paths):
+            rr = [e for e in p.events if e.callee in ("resolve_ref", "nest")]
+            ir = [e for e in p.events if e.callee == "is_root"]
+            if len(rr) != 1 or (ir and ir[0].args[0] is not cur):
+                rec.add("%s path %d: one resolution of `&`, chosen by looking at the current selectors (shape not recognised)" % (fn, i), {"verdict": "inconclusive", "per_solver": {}, "time_s": 0})
+                continue
+            used = rr[0].rargs[-1]
+            if used is remembered:
+                want = isroot.term
+                which = "the remembered selectors"
+            elif used is cur:
+                want = "(not %s)" % isroot.term
+                which = "the current selectors"
+            else:
+                rec.add("%s path %d: `&` is one of the two selector sets of the context (shape not recognised)" % (fn, i), {"verdict": "inconclusive", "per_solver": {}, "time_s": 0})
+                continue
+            kinds.add(which)
+            r = E.decide(ctx, p.pc + ["(not %s)" % want], model_names=[isroot.term])
+            rec.add("%s path %d: `&` resolves against %s exactly when the current selectors %s the root" % (fn, i, which, "are" if used is remembered else "are not"), r)
+            if fn == "at_root":
+                out = p.ret
+                good = (isinstance(out, sym.Agg) and _payload_contains(out.fields.get("s") or out.fields.get("0"), rr[0].result)
+                        and _payload_contains(out.fields.get("backref") or out.fields.get("1"), used) and rr[0].rargs[0] is sel)
+                rec.add("at_root path %d: the new context holds the resolved selectors and remembers the set `&` was resolved against" % i,
+                        {"verdict": "holds" if good else "violated", "per_solver": {"structural": "event identity"}, "time_s": 0})
+            else:
+                good = rr[0].rargs[0] is cur and rr[0].rargs[1] is sel and p.ret is rr[0].result
+                rec.add("nest path %d: the nested selectors are combined with the current selectors" % i,
+                        {"verdict": "holds" if good else "violated", "per_solver": {"structural": "event identity"}, "time_s": 0})
+        if kinds != {"the remembered selectors", "the current selectors"}:
+            rec.add("%s: both cases (current selectors root / not root) explored (%s)" % (fn, sorted(kinds)), {"verdict": "violated" if kinds else "inconclusive", "per_solver": {}, "time_s": 0})
+    return rec
+
+
 def k_value_eq_symmetric(E, tier):
     """C12: css::Value::eq is symmetric as a function of the two values' kinds and of the (symmetric)
     comparisons of their parts: eq(a,b) and eq(b,a) are executed symbolically and must be the same
